@@ -77,6 +77,18 @@ def worker(args):
                     part.fail("formatting an already formatted document returns an edit (%s)" % ("changing it again" if n2 != new else "that changes nothing"), dict(sc, formatted=new)); break
                 part.cnt("idempotence_checks")
                 if li == 0:
+                    # near-canonical layouts: the canonical text with other line endings / final newline / stray white space must be
+                    # brought back to the canonical text (an answer of null is right only if the text *is* canonical)
+                    variants = {"crlf": new.replace("\n", "\r\n"), "no-final-newline": new[:-1] if new.endswith("\n") else None,
+                                "extra-final-newline": new + "\n", "trailing-space": new.replace("\n", " \n", 1), "cr-only": None}
+                    name = rng.choice([k for k, v in variants.items() if v is not None and v != new])
+                    v = variants[name]
+                    scv = {"kind": "format", "text": v, "options": opts, "variant": name}
+                    vn, vres = fmt_text(part, sess, v, opts, scv, "near-canonical layout (%s)" % name)
+                    if vn is None: break
+                    if vn != new:
+                        part.fail("the canonical text with %s is %s instead of being formatted back to the canonical text" % (name, "left as it is (null)" if vres is None else "formatted to something else"), scv); break
+                    part.see(("near-canonical", name)); part.cnt("near_canonical_variants")
                     check_indentation(part, Ps[0], new, opts, sc)
                     # null exactly when nothing would change
                     if (res is None) != (new == text): part.fail("null result although the text is not canonical (or the other way round)", sc)
